@@ -292,7 +292,10 @@ func concurrentSections(tier string) []section {
 		maxCalls = 4
 	}
 	scs = append(scs, cwScenarios("bytearrays", 2, maxCalls)...)
-	scs = append(scs, cwScenarios("map", 2, maxCalls)...)
+	// a map WriteItem has three times the lock operations of a byte-array one
+	// (bucket lookup under a read lock, upgrade, the buffer's own lock): three
+	// calls cost up to 90 000 executions per scenario, so the quick tier stops at two
+	scs = append(scs, cwScenarios("map", 2, maxCalls-1+b2i(tier == "thorough"))...)
 	if tier == "thorough" {
 		scs = append(scs, cwScenarios("bytearrays", 3, 4)...)
 		scs = append(scs, cwScenarios("map", 3, 3)...)
@@ -332,4 +335,11 @@ func concurrentSections(tier string) []section {
 			r.Violate(f.Class, "%s\nschedule (choices): %v\ntrace tail:\n  %s", f.Msg, f.Choices, strings.Join(tr, "\n  "))
 		}
 	}}}
+}
+
+func b2i(b bool) int {
+	if b {
+		return 1
+	}
+	return 0
 }
